@@ -128,7 +128,7 @@ def run_harness(ctx, scenarios, label, shards=None, race=False, timeout=900):
 
 
 def _validate(ctx, tracefile):
-    r = ctx.validate('H2ClientTrace', tracefile)
+    r = ctx.validate('H2ClientTrace', tracefile, chunk=2500)
     bad = {}
     for s in r.printed('BAD'):
         m = re.match(r'(\d+) (.*)$', s, re.S)
@@ -152,11 +152,16 @@ def judge(ctx, scenarios, tracefile, props, label='cli', confirm=True):
     def rerun(scs, lab):
         tr, _ = run_harness(ctx, scs, lab, shards=1)
         return _validate(ctx, tr)
+    xseen = 0
     for t, clauses in sorted(bad.items()):
         for c in clauses:
             p = c.split(':', 1)[0]
             if p == 'X':
-                ctx.inconclusive.append('trace %d: %s' % (t, c))
+                # a harness-level trouble (quiescence not reached in time, driver panic) makes the run inconclusive only if
+                # it happens again when the scenario is replayed on its own: under load one slow scheduling turn is enough
+                if (not confirm) or xseen < 3 and srvfam.confirmed(ctx, byid.get(t), c, rerun):
+                    ctx.inconclusive.append('trace %d: %s' % (t, c))
+                xseen += 1
                 continue
             if p in props or any(c.startswith(x) for x in props if ':' in x):
                 cls = c.split(' ')[0]
@@ -437,6 +442,11 @@ def gen_gate_goaway(ctx, thorough):
 def gen_c12_extra(ctx, thorough):
     rng = ctx.rng
     out = gen_gate_goaway(ctx, thorough)
+    # Close while the peer has stopped reading (its GOAWAY cannot be written): what is in flight is resolved all the same
+    for cap in (8, 64):
+        for nreq in (1, 3):
+            steps = [call(i) for i in range(1, nreq + 1)] + [{"op": "stopread"}, {"op": "close"}, {"op": "wait", "ms": 20}, {"op": "resumeread"}, call(9)]
+            out.append({'tag': 'close-stalled', 'cfg': {'outCap': cap}, 'steps': steps})
     base_srv = [resp(1, fields=[["x-a", "b"]], split=[3]), data(1, 30, es=False), resp(2, es=True), data(1, 10, es=True), {"op": "ping"},
                 {"op": "settings", "pairs": [[4, 70000]]}, resp(3), data(3, 5, es=True)]
     calls = [call(1), call(2, n=10), call(3, n=100, kind='stream')]
@@ -509,6 +519,21 @@ def gen_c14_extra(ctx, thorough):
         steps.append({"op": "burst", "steps": [data(i, 15000, es=False, pad=7 if i == 2 else -1) for i in (1, 2, 3)]})
     steps += [data(1, 0, es=True), data(2, 0, es=True), data(3, 0, es=True)]
     out.append({'tag': 'interleaved', 'cfg': {}, 'steps': steps})
+    return out
+
+
+def gen_c14_late(ctx, thorough):
+    """Responses for requests whose callers have given up (cancelled): every DATA octet, END_STREAM or not, still
+    counts against the connection window and has to be handed back - 80 x 16 KiB is more than the window."""
+    out = []
+    for es_on_data in (True, False):
+        steps = []
+        for i in range(1, 81):
+            steps += [call(i), {"op": "cancel", "req": i}, resp(i, es=False), data(i, 16384, es=es_on_data)]
+            if not es_on_data:
+                steps += [data(i, 0, es=True)]
+        steps += [call(99), resp(99, es=False), data(99, 30000, es=True)]
+        out.append({'tag': 'late-data-after-cancel', 'cfg': {}, 'steps': steps})
     return out
 
 
@@ -592,7 +617,7 @@ FAM = {
     'C11': dict(cfg=('H2Client_c11_q.cfg', 'H2Client_c11_t.cfg'), budget=(700, 6000), unit=1, hcfg={}, extra=gen_c11_extra, props={'C11'}),
     'C12': dict(cfg=('H2Client_c12_q.cfg', 'H2Client_c12_t.cfg'), budget=(700, 6000), unit=1, hcfg={}, extra=gen_c12_extra, props={'C12'}),
 }
-EXTRA_ONLY = {'C14': (gen_c14_extra, {'C14'}), 'C18': (gen_c18_extra, {'C18', 'C02:request-block-undecodable'}), 'C20': (gen_c20_extra, {'C20'})}
+EXTRA_ONLY = {'C14': (lambda ctx, th: gen_c14_extra(ctx, th) + gen_c14_late(ctx, th), {'C14'}), 'C18': (gen_c18_extra, {'C18', 'C02:request-block-undecodable'}), 'C20': (gen_c20_extra, {'C20'})}
 
 
 def build(ctx, pid):
